@@ -235,7 +235,8 @@ class SQLiteDateConverter(dbapiprovider.DateConverter):
             return datetime.date(*time_tuple[:3])
         except: return val
     def py2sql(converter, val):
-        return val.strftime('%Y-%m-%d')
+        # strftime('%Y') does not zero-pad years before 1000 on every platform
+        return '%04d-%02d-%02d' % (val.year, val.month, val.day)
 
 class SQLiteTimeConverter(dbapiprovider.TimeConverter):
     def sql2py(converter, val):
